@@ -181,6 +181,13 @@ void c10_run(Ctx & c)
       }
     c.run_check(SYM, x, k);
     }
+  // quotient boundaries of the reduction over the whole admissible range (see C09, round 11): y = m*phi + d, -4 <= d <= 3
+  n = c.share(c.n(800000, 100000000));
+  for(uint64_t i = 0; i < n; ++i)
+    {
+    int64_t m = (i & 1) ? c.rng.range(KMAX - KMAX / 4, KMAX - 1) : c.rng.range(1, KMAX - 1), d = c.rng.range(-4, 3);
+    if(d < 0) c.run_check(SYM, PHI + d, m - 1); else c.run_check(SYM, d, m);
+    }
   for(int mode : { FE_DOWNWARD, FE_UPWARD, FE_TOWARDZERO })
     { // see C09: exact clauses under directed rounding modes
     std::fesetround(mode);
